@@ -24,7 +24,10 @@ _scratch = None
 def scratch_dir():
     global _scratch
     if _scratch is None or not os.path.isdir(_scratch):
-        _scratch = tempfile.mkdtemp(prefix="jfv_out_")
+        # below the per-run build directory when there is one: pool workers are terminated without running their
+        # exit handlers, the owner of the build directory removes everything at its exit
+        parent = bootstrap.build_dir if bootstrap.build_dir and os.path.isdir(bootstrap.build_dir) else None
+        _scratch = tempfile.mkdtemp(prefix="jfv_out_", dir=parent)
         owner = os.getpid()
 
         def _cleanup(path=_scratch):
